@@ -53,7 +53,7 @@ func (w *writer) do(ctx context.Context, op WriteOp) {
 	switch op.Kind {
 	case "create":
 		r := NewRes(ns, op.Type, op.ID, op.Val)
-		if strings.HasPrefix(op.Mut, "label:") {
+		if strings.HasPrefix(op.Mut, "label:") || strings.HasPrefix(op.Mut, "unlabel:") || strings.HasPrefix(op.Mut, "labeldo:") {
 			applyMut(r, CrudOp{Mut: op.Mut, Val: op.Val})
 		}
 		if err := w.st.Create(ctx, r); err == nil {
